@@ -2712,9 +2712,24 @@ impl QueryJob {
                                     continue;
                                 }
 
+                                // A session fact joins the relation for this request, so it
+                                // must conform to the relation's declared schema like any insert
+                                let tuple = Tuple::new(values);
+                                if let Err(e) = storage.validate_tuples_in(
+                                    &kg_name,
+                                    &rule.head.relation,
+                                    std::slice::from_ref(&tuple),
+                                ) {
+                                    messages.push(format!(
+                                        "Session fact rejected for '{}': {}",
+                                        rule.head.relation, e
+                                    ));
+                                    current_stmt.clear();
+                                    continue;
+                                }
+
                                 // Store for temporary insertion before query execution
-                                session_fact_tuples
-                                    .push((rule.head.relation.clone(), Tuple::new(values)));
+                                session_fact_tuples.push((rule.head.relation.clone(), tuple));
                                 messages.push(format!(
                                     "Session fact added for '{}'. (Use +{}(...) to persist)",
                                     rule.head.relation, rule.head.relation
